@@ -37,15 +37,16 @@ class DS(EventDataset):
 
 
 class OverrideExe:
-    "an override executor that is a callable object and, like an empty batching queue, falsy"
+    "an override executor that is a callable object, falsy like an empty batching queue, and returns an awaitable that is not a coroutine"
 
     def __len__(self):
         return 0
 
-    async def __call__(self, a, title=None):
+    def __call__(self, a, title=None):
+        # a plain callable that hands back an awaitable object (not a coroutine), as an executor built on futures does
         g = Gate()
         LOG.append((self, a, title, g))
-        return await g
+        return g
 
 
 override_exe = OverrideExe()
